@@ -378,10 +378,12 @@ func (ks Key) MarshalText() ([]byte, error) {
 
 // TraitEntry is a cache entry.
 type TraitEntry struct {
-	K Key         `json:"key" description:"Key."`
-	V interface{} `json:"val" description:"Value."`
+	// E and C are accessed atomically, they have to be at the beginning of the struct to be 64-bit aligned
+	// on 32-bit platforms.
 	E int64       `json:"exp" description:"Expiration timestamp (ns)."`
 	C int64       `json:"-" description:"Usage count or last serve timestamp (ns)."`
+	K Key         `json:"key" description:"Key."`
+	V interface{} `json:"val" description:"Value."`
 }
 
 var _ Entry = TraitEntry{}
